@@ -24,7 +24,8 @@ COMPONENTS = {"real": ["ECAgent.Environments.DiscreteWorld.add_cell_component / 
               "stub": ["callable generators and source buffers are harness-built"]}
 PROBES = ["src_callable", "src_list", "src_ndarray_int", "src_ndarray_float", "src_const", "src_lookup_list",
           "src_lookup_nd", "alias_after_ndarray", "alias_after_list", "zero_extent_below_populated", "readd_removed_name",
-          "remove_unknown_rejected", "lookup_1d", "lookup_2d", "lookup_3d", "get_cell_compared"]
+          "remove_unknown_rejected", "lookup_1d", "lookup_2d", "lookup_3d", "get_cell_compared", "generator_object_reused", "src_lookup_reuse",
+          "src_lookup_rebind", "src_const_reuse"]
 TECHNIQUE = "deterministic simulation: seeded add/remove histories of cell components with injected rejected removals and caller-side buffer mutation vs a per-cell reference table"
 LEVEL_TEXT = ("Seeded search over grid shapes, source kinds and add/remove histories; after every operation the column set, the "
               "position column and every cell of every live component must equal the reference (so no add / remove disturbs "
@@ -34,7 +35,8 @@ LEVEL_NOTE = ("Trusted: the per-cell reference; the set of cells is taken from t
               "coordinate mapping itself is C09's subject and not claimed); get_cell is compared only on worlds with three "
               "positive extents.")
 SHRINK_LISTS = ["ops"]
-KINDS = ["callable", "list", "ndarray_int", "ndarray_float", "const", "lookup_list", "lookup_nd"]
+KINDS = ["callable", "list", "ndarray_int", "ndarray_float", "const", "lookup_list", "lookup_nd", "lookup_reuse",
+         "lookup_rebind", "const_reuse"]
 
 
 def generate(rng, tier):
@@ -83,6 +85,7 @@ def execute(sc, ctx):
     ctx.check(n == max(W, 1) * max(H, 1) * max(D, 1), "cell-count", f"{n} cells for extents {(W, H, D)}")
     if (W == 0 and (H > 0 or D > 0)) or (H == 0 and D > 0):
         ctx.probe("zero_extent_below_populated")
+    shared = {}        # generator objects reused across components
     live = {}          # name -> {"vals": [...], "kind":, "buf": caller's buffer or None}
     removed = set()
     serial = 0
@@ -137,6 +140,36 @@ def execute(sc, ctx):
             elif src == "const":
                 gen = ConstantGenerator(serial * 7 + 1)
                 vals = [serial * 7 + 1] * n
+            elif src == "const_reuse":
+                # one generator object used for several components, its value changed in between
+                if "const" not in shared:
+                    shared["const"] = ConstantGenerator(None)
+                else:
+                    ctx.probe("generator_object_reused")
+                gen = shared["const"]
+                gen.value = serial * 7 + 3
+                vals = [serial * 7 + 3] * n
+            elif src in ("lookup_reuse", "lookup_rebind"):
+                # one LookupGenerator object used for several components; its nested-list table is edited in
+                # place (or rebound to a new table) in between - each component must hold the table's entries
+                # as they were when that component was added
+                w_, h_, d_ = max(W, 1), max(H, 1), max(D, 1)
+                fresh = [[[enc(serial, (x, y, z)) for z in range(d_)] for y in range(h_)] for x in range(w_)]
+                if "lookup" not in shared:
+                    shared["table"] = fresh
+                    shared["lookup"] = LookupGenerator(fresh)
+                else:
+                    ctx.probe("generator_object_reused")
+                    if src == "lookup_rebind":
+                        shared["table"] = fresh
+                        shared["lookup"].table = fresh
+                    else:
+                        for x in range(w_):
+                            for y in range(h_):
+                                for z in range(d_):
+                                    shared["table"][x][y][z] = fresh[x][y][z]
+                gen = shared["lookup"]
+                vals = [fresh[p[0]][p[1]][p[2]] for p in cells]
             else:
                 # lookup table of the world's dimensionality: 1-D line, 2-D width x height, 3-D otherwise
                 allowed = [3]
